@@ -40,6 +40,12 @@ CHECKS = {
    note="Trusted: Coq kernel, hand models tied by correspondence / call-count search, translator T4 (declared dependencies used to pick unrelated variables). Known finding G15 (dynamic transitions re-evaluate the gradient at a cold start position once per direction) is re-observed and listed in known_findings.json.",
    technique="Coq proof over the cache state machine + evaluation-count correspondence + call-count search",
    design="5/C18"),
+ "C05": dict(
+   cat="proof",
+   text="Coq theorems (no axioms) in a symbolic differentiation algebra (Model/Systems.v): method bodies of the Hamiltonian interface and the class hierarchy are regenerated from src/mici/systems.py on every run (translators T4/T4b), the body a class uses is resolved in Coq along the generated MRO, and for every concrete system class and both density conventions h = h1 + h2, dh1_dpos = Dq h1, dh2_dpos = Dq h2, dh2_dmom = Dp h2, dh_dpos = Dq h = dh1_dpos + dh2_dpos, dh_dmom = Dp h hold as identities between linear combinations of uninterpreted atoms (systems_consistent, decided by vm_compute over the finite generated tables), hence under every interpretation of the user functions and metric quantities (derivative_methods_correct); documented_hamiltonians gives the documented formula per class. Ties: translator output validated against live MRO/resolution; search: central finite differences of h, h1, h2 against every derivative method and the documented formula in dense NumPy on every class of the zoo, both return conventions.",
+   note="Trusted: Coq kernel; translators T4/T4b (T4b matches bodies against a table of known forms, fail closed); calculus facts encoded in Dq/Dp (user gradient is the gradient of the user density; matrix-class gradients correct = C11; vjp/mhp chain rules).",
+   technique="Coq proof by computation over a symbolic model regenerated from source (ast translator, MRO resolved in Coq) + finite-difference search",
+   design="5/C05"),
 }
 
 NOT_YET = "check not built yet in this round (design in DESIGN.md section 5); no claim is made"
